@@ -41,6 +41,7 @@ struct Res {
     dt: f64,
 }
 
+/// Statistics of one batch; `report` = violations are reported (otherwise statistics only).
 fn judge(rep: &Report, label: &str, rs: &[Res]) -> serde_json::Value {
     let n = rs.len();
     let found: Vec<&Res> = rs.iter().filter(|r| r.found).collect();
@@ -68,68 +69,165 @@ fn judge(rep: &Report, label: &str, rs: &[Res]) -> serde_json::Value {
     stats
 }
 
+/// Worst value of every statistic over a family of batches (for the evidence).
+#[derive(Default)]
+struct Worst {
+    batches: u64,
+    eff: Option<(f64, String)>,
+    madz: Option<(f64, String)>,
+    p90: Option<(f64, String)>,
+    mdt: Option<(f64, String)>,
+    msdz: Option<(f64, String)>,
+}
+impl Worst {
+    fn add(&mut self, st: &serde_json::Value) {
+        self.batches += 1;
+        let l = st["batch"].as_str().unwrap_or("").to_string();
+        let g = |k: &str| st[k].as_f64().unwrap_or(f64::NAN);
+        let upd = |slot: &mut Option<(f64, String)>, v: f64, worse: fn(f64, f64) -> bool| {
+            if slot.as_ref().map_or(true, |(w, _)| worse(v, *w)) {
+                *slot = Some((v, l.clone()));
+            }
+        };
+        upd(&mut self.eff, g("efficiency"), |a, b| a < b);
+        upd(&mut self.madz, g("median_abs_dz_m"), |a, b| a > b);
+        upd(&mut self.p90, g("p90_abs_dz_m"), |a, b| a > b);
+        upd(&mut self.mdt, g("median_transverse_error_m"), |a, b| a > b);
+        upd(&mut self.msdz, g("median_signed_dz_m").abs(), |a, b| a > b);
+    }
+    fn json(&self) -> serde_json::Value {
+        let f = |o: &Option<(f64, String)>| o.as_ref().map(|(v, l)| json!({"value": v, "batch": l}));
+        json!({"batches": self.batches, "lowest_efficiency": f(&self.eff), "largest_median_abs_dz_m": f(&self.madz), "largest_p90_abs_dz_m": f(&self.p90), "largest_median_transverse_error_m": f(&self.mdt), "largest_abs_median_signed_dz_m": f(&self.msdz)})
+    }
+}
+
+/// Generator coordinates of a lattice event (the axes along which sub-batches are cut).
+const AXES: [(&str, u64); 9] = [("slope", 5), ("radius", 4), ("azimuth-phase", 8), ("tracks", 3), ("v_z", 9), ("amplitude", 3), ("pad-width", 3), ("v_x", 3), ("v_y", 3)];
+fn coords(li: u64, seed: u64) -> [u64; 9] {
+    let d = unrank(li, &LATTICE_RADICES);
+    let k = li + seed;
+    [d[0], d[1], d[2], d[3], d[4], (k / 9) % 3, (k / 27) % 3, k % 3, (k / 3) % 3]
+}
+
+fn eval_event(spec: &EventSpec, ts: u32, h: u64, what: serde_json::Value, loc: &mut Local) -> Res {
+    let m = maps();
+    let hits = ionisation(m, spec);
+    let banks = banks(m, &signals(m, spec.sigma_z, &hits), ts);
+    match reconstruct(&banks) {
+        Err(p) => {
+            loc.note(h, hits.len() >= 13, "panic");
+            loc.violation(format!("panic:event:{}", panic_site(&p)), json!({"event": what, "spec": format!("{spec:?}"), "panic": p}));
+            Res::default()
+        }
+        Ok(Err(e)) => {
+            loc.note(h, hits.len() >= 13, "build-error");
+            loc.violation("c12:wellformed-event-rejected", json!({"event": what, "error": e}));
+            Res::default()
+        }
+        Ok(Ok(v)) => {
+            loc.note(h, hits.len() >= 13, if v.is_some() { "vertex" } else { "no-vertex" });
+            let mut r = Res { done: true, ..Default::default() };
+            if let Some(v) = v {
+                r.found = true;
+                r.dz = v[2] - spec.vertex[2];
+                r.dt = (v[0] - spec.vertex[0]).hypot(v[1] - spec.vertex[1]);
+            }
+            if std::env::var("AGV_DEBUG").is_ok() {
+                eprintln!("DBG {what} found={} dz={:.4} dt={:.4} hits={}", r.found, r.dz, r.dt, hits.len());
+            }
+            if loc.want_sample() {
+                loc.sample(json!({"event": what, "true_vertex": spec.vertex, "tracks": spec.tracks.len(), "ionisation_clusters": hits.len(), "banks": banks.len(), "reconstructed": v}));
+            }
+            r
+        }
+    }
+}
+
 pub fn run(args: &Args) -> i32 {
     let rep = super::report(args, "exploration");
-    rep.set_rule("every case = one event of the deterministic forward-model lattice (no RNG), packed into ADC/PWB/TRG banks under the simulation run number and reconstructed with MainEvent::try_from_banks + vertex(); non-trivial = the forward model produced at least 13 ionisation clusters; distinct by hash of the lattice index; the statement's thresholds are evaluated on the whole lattice and (thorough) on each of the 8 azimuth-phase sub-lattices of 540 events");
+    rep.set_rule("every case = one event of a deterministic forward-model family (no RNG), packed into ADC/PWB/TRG banks under the simulation run number and reconstructed with MainEvent::try_from_banks + vertex(); non-trivial = the forward model produced at least 13 ionisation clusters; distinct by hash of the event's generator parameters; the statement's thresholds are evaluated on the whole lattice, on every axis-aligned sub-lattice with one generator coordinate fixed (each holds at least 200 events), and on every window of 200 consecutive azimuths of the azimuth sweeps");
     rep.assume("'any seed' of a random distribution is a statistical claim outside exhaustive enumeration: decided for the fixed lattices only (VERIF_SEED shifts the azimuth offset and the cycling of amplitude / width / transverse vertex position)");
+    rep.assume("the statement does not fix the distribution over its parameter box (2-4 tracks, vertex near the axis); a batch of >= 200 events with one generator coordinate fixed (e.g. only 2-track events, only the lowest amplitude, one V_z) or with the azimuth confined to a window is therefore held to the same thresholds as the whole lattice; batches are never selected by outcome");
     rep.assume("forward model R7: helices from the vertex, 3 mm ionisation steps, shipped drift table inverted by linear interpolation, shipped responses with the documented neighbour induction factors, Gaussian pad charge sharing, digitised on baselines 3000/1725 after 100 delay samples");
     let thorough = args.tier == Tier::Thorough;
     let total: u64 = LATTICE_RADICES.iter().product();
-    let idxs: Vec<u64> = if thorough { (0..total).collect() } else { (0..total).filter(|i| i % 18 == (args.seed % 18)).collect() };
+    let idxs: Vec<u64> = if thorough { (0..total).collect() } else { (0..total).filter(|i| i % 2 == (args.seed % 2)).collect() };
     let phases: Vec<u64> = if thorough { vec![args.seed, args.seed + 1, args.seed + 2] } else { vec![args.seed] };
     let mut all_batches = Vec::new();
+    let mut worst_slices = Worst::default();
     for (pi, &seed) in phases.iter().enumerate() {
         let results = Mutex::new(vec![Res::default(); idxs.len()]);
-        rep.run(&format!("lattice-events-phase-{pi}"), idxs.len() as u64, 300, thorough, "V_z (9) x tracks {2,3,4} x azimuth phase (8) x curvature radius (4, alternating charge) x slope (5), transverse vertex / amplitude / pad charge width cycled; quick = every 18th lattice point", |k, loc| {
+        rep.run(&format!("lattice-events-phase-{pi}"), idxs.len() as u64, 300, thorough, "V_z (9) x tracks {2,3,4} x azimuth phase (8) x curvature radius (4, alternating charge) x slope (5), transverse vertex / amplitude / pad charge width cycled; quick = every 2nd lattice point", |k, loc| {
             let li = idxs[k as usize];
             let spec = lattice_event(li, seed);
-            let m = maps();
-            let hits = ionisation(m, &spec);
-            let banks = banks(m, &signals(m, spec.sigma_z, &hits), 1000 + li as u32);
-            let h = hash64(&(li, seed));
-            match reconstruct(&banks) {
-                Err(p) => {
-                    loc.note(h, hits.len() >= 13, "panic");
-                    loc.violation(format!("panic:event:{}", panic_site(&p)), json!({"lattice_index": li, "spec": format!("{spec:?}"), "panic": p}));
-                }
-                Ok(Err(e)) => {
-                    loc.note(h, hits.len() >= 13, "build-error");
-                    loc.violation("c12:wellformed-event-rejected", json!({"lattice_index": li, "error": e}));
-                }
-                Ok(Ok(v)) => {
-                    loc.note(h, hits.len() >= 13, if v.is_some() { "vertex" } else { "no-vertex" });
-                    let mut r = Res { done: true, ..Default::default() };
-                    if let Some(v) = v {
-                        r.found = true;
-                        r.dz = v[2] - spec.vertex[2];
-                        r.dt = (v[0] - spec.vertex[0]).hypot(v[1] - spec.vertex[1]);
-                    }
-                    results.lock().unwrap()[k as usize] = r;
-                    if std::env::var("AGV_DEBUG").is_ok() {
-                        eprintln!("DBG li={li} d={:?} found={} dz={:.4} dt={:.4} hits={}", unrank(li, &LATTICE_RADICES), r.found, r.dz, r.dt, hits.len());
-                    }
-                    if loc.want_sample() {
-                        loc.sample(json!({"lattice_index": li, "true_vertex": spec.vertex, "tracks": spec.tracks.len(), "ionisation_clusters": hits.len(), "banks": banks.len(), "reconstructed": v}));
-                    }
-                }
-            }
+            let r = eval_event(&spec, 1000 + li as u32, hash64(&(li, seed)), json!({"lattice_index": li, "lattice_phase": seed}), loc);
+            results.lock().unwrap()[k as usize] = r;
         });
         if rep.one.is_none() {
-            let rs: Vec<Res> = results.lock().unwrap().iter().copied().filter(|r| r.done).collect();
-            let mut batches = vec![judge(&rep, &format!("whole lattice, lattice phase (seed) {seed}"), &rs)];
-            if thorough {
-                let all = results.lock().unwrap().clone();
-                for phase in 0..8u64 {
-                    let sub: Vec<Res> = idxs.iter().zip(all.iter()).filter(|(i, r)| r.done && unrank(**i, &LATTICE_RADICES)[2] == phase).map(|(_, r)| *r).collect();
-                    batches.push(judge(&rep, &format!("azimuth phase {phase}, lattice phase (seed) {seed}"), &sub));
+            let all = results.lock().unwrap().clone();
+            let rs: Vec<Res> = all.iter().copied().filter(|r| r.done).collect();
+            let whole = judge(&rep, &format!("whole lattice, lattice phase (seed) {seed}"), &rs);
+            eprintln!("  [C12] {whole}");
+            all_batches.push(whole);
+            // every axis-aligned sub-lattice with one generator coordinate fixed and >= 200 events. (Fixing two
+            // coordinates gives populations as narrow as "two tracks of slopes -0.43 and 0.38", whose median errors on
+            // the pinned tree sit at the thresholds themselves (1.5 cm / 4 cm): holding those to the statement's
+            // numbers would demand more than it says, so they are not judged.)
+            let cs: Vec<[u64; 9]> = idxs.iter().map(|&li| coords(li, seed)).collect();
+            for a in 0..AXES.len() {
+                for va in 0..AXES[a].1 {
+                    let sub: Vec<Res> = cs.iter().zip(all.iter()).filter(|(c, r)| r.done && c[a] == va).map(|(_, r)| *r).collect();
+                    if sub.len() >= 200 {
+                        worst_slices.add(&judge(&rep, &format!("{}={va}, lattice phase (seed) {seed}", AXES[a].0), &sub));
+                    }
                 }
             }
-            eprintln!("  [C12] {}", batches[0]);
-            all_batches.extend(batches);
+        }
+    }
+
+    // azimuth sweeps: two- and three-track events whose first track direction is stepped finely around the whole circle;
+    // every window of 200 consecutive azimuths (cyclic) is a batch
+    let steps: u64 = if thorough { 3600 } else { 720 };
+    let families: Vec<(usize, f64, f64)> = if thorough {
+        vec![(2, 0.3, 1.0), (2, 0.3, -1.0), (2, 1.2, 1.0), (2, 1.2, -1.0), (3, 0.6, 1.0), (3, 0.6, -1.0)]
+    } else {
+        vec![(2, 0.3, 1.0), (2, 0.3, -1.0)]
+    };
+    let mut worst_windows = Worst::default();
+    for (fi, &(nt, radius, q0)) in families.iter().enumerate() {
+        let results = Mutex::new(vec![Res::default(); steps as usize]);
+        rep.run(&format!("azimuth-sweep-{fi}"), steps, 300, true, &format!("{nt} tracks of curvature radius {radius} m (first charge {q0:+}), first track direction = k x 360/{steps} degrees, the others 360/{nt} + 21.2 degrees apart, slopes/vertex/amplitude cycled with k"), |k, loc| {
+            let slopes = [-0.8, -0.43, 0.07, 0.38, 0.8];
+            let phi = 2.0 * std::f64::consts::PI * k as f64 / steps as f64;
+            let ku = k as usize;
+            let tracks = (0..nt).map(|j| TrackSpec {
+                phi0: phi + 2.0 * std::f64::consts::PI * j as f64 / nt as f64 + 0.37 * j as f64,
+                radius,
+                charge: if j % 2 == 0 { q0 } else { -q0 },
+                lambda: slopes[(ku + 2 * j) % 5],
+            }).collect();
+            let grid = [-0.01, 0.0, 0.01];
+            let spec = EventSpec { vertex: [grid[ku % 3], grid[(ku / 3) % 3], -0.7857 + 0.19675 * ((ku / 5) % 9) as f64], tracks, amp: [50.0, 100.0, 150.0][(ku / 9) % 3], sigma_z: [0.003, 0.0045, 0.006][(ku / 27) % 3], step: 0.003 };
+            let r = eval_event(&spec, 5000 + k as u32, hash64(&("sweep", fi, k)), json!({"sweep": fi, "step": k, "of": steps}), loc);
+            results.lock().unwrap()[ku] = r;
+        });
+        if rep.one.is_none() {
+            let all = results.lock().unwrap().clone();
+            let n = all.len();
+            for start in (0..n).step_by(if thorough { 20 } else { 8 }) {
+                let sub: Vec<Res> = (0..200).map(|o| all[(start + o) % n]).filter(|r| r.done).collect();
+                if sub.len() >= 200 {
+                    worst_windows.add(&judge(&rep, &format!("azimuth sweep {fi} ({nt} tracks, R={radius} m, q={q0:+}), steps {start}..{} of {steps}", start + 200), &sub));
+                }
+            }
         }
     }
     if rep.one.is_none() {
         rep.cov("batch_statistics", json!(all_batches));
+        rep.cov("sub_lattice_batches", worst_slices.json());
+        rep.cov("azimuth_window_batches", worst_windows.json());
+        eprintln!("  [C12] sub-lattices: {}", worst_slices.json());
+        eprintln!("  [C12] azimuth windows: {}", worst_windows.json());
     }
     rep.finish()
 }
